@@ -28,6 +28,23 @@ class TsApprox:
         return 'TsApprox(%r, %dus)' % (self.dt, self.tol_us)
 
 
+class LAmbig:
+    """Expected value of a tag-'L' field whose top bit is set.  The base
+    specification reads it unsigned, the library documents a signed reading;
+    the property carves 'L' out, so either reading is accepted - but one
+    process has to use the SAME reading for every 'L' it decodes (alone, in a
+    short array, in a long array, nested)."""
+
+    def __init__(self, raw):
+        self.raw = raw              # the unsigned reading
+
+    def __repr__(self):
+        return 'LAmbig(%d | %d)' % (self.raw, self.raw - 2**64)
+
+
+AMBIG_L = False        # set by C05 in its workers; other users keep L < 2^63
+
+
 class MustRefuse:
     def __init__(self, why):
         self.why = why
@@ -105,6 +122,11 @@ def wleaf(rnd, w, tag, allow_refuse=True):
     if tag == b'L':
         v = rnd.choice([0, 1, 2**63 - 1, 2**62, 2**32, rnd.getrandbits(63),
                         _magic().rint(rnd, 0, 2**63 - 1) or 0])
+        if AMBIG_L and rnd.random() < 0.3:
+            v = rnd.choice([2**63, 2**64 - 1, 2**63 + 1, 2**64 - 2,
+                            2**63 | rnd.getrandbits(63)])
+            w.put(struct.pack('>Q', v))
+            return LAmbig(v)
         w.put(struct.pack('>Q', v))
         return v
     if tag == b'f':
@@ -233,6 +255,15 @@ def warray(rnd, w, depth=0, max_depth=3, n=None, allow_refuse=True):
         w.depth = depth
     at = len(w.b)
     w.put(b'\0\0\0\0', 'array-len')
+    if n is None and rnd.random() < 0.25:
+        # homogeneous array (what a vectorised fast path would look for):
+        # one leaf tag, lengths around the small powers of two and beyond
+        tag = rnd.choice(LEAF_TAGS)
+        n = rnd.choice([1, 2, 3, 4, 5, 8, 15, 16, 17, 32, 33, 64, 100,
+                        _magic().rint(rnd, 1, 300) or 7])
+        out = [wleaf(rnd, w, tag, allow_refuse) for _ in range(n)]
+        w.patch(at, struct.pack('>I', len(w.b) - at - 4))
+        return out
     if n is None:
         n = rnd.choice([0, 1, 2, 3, 5])
     out = [wvalue(rnd, w, depth, max_depth, None, allow_refuse)
